@@ -101,7 +101,7 @@ fn chain(solver: &str, k: usize, rr: Sym, bb: Sym, tol: Sym) -> bool {
     // abstract step on fresh values
     let (s2, n2, s, nn, v, t) = (Sym::var("S"), Sym::var("N2"), Sym::var("s"), Sym::var("n"), Sym::var("v"), Sym::var("t"));
     let hyp = B::and(vec![le(z(), s), eq(s * s, s2), le(z(), nn), eq(nn * nn, n2), ne(nn, z()), eq(v * nn, s), le(v, t), le(z(), t)]);
-    all &= ok(prove("norm step: sqrt(S)/N <= t and t >= 0 imply S <= t^2 N^2", B::implies(hyp, le(s2, t * t * n2))));
+    all &= ok(prove_closed("norm step: sqrt(S)/N <= t and t >= 0 imply S <= t^2 N^2", B::implies(hyp, le(s2, t * t * n2))));
     all
 }
 
